@@ -1,10 +1,12 @@
 # C15 — consistent hashing agrees with Carbon and moves only the keys it must (exec'd by obligations.py)
 
-def _c15_world(kind, harness, nd, r, hosts=None, tier="quick"):
+def _c15_world(kind, harness, nd, r, hosts=None, tier="quick", insts=None):
     p = {"ndests": str(nd), "replicas": str(r)}
     if hosts:
         p["hosts"] = hosts
-    return spec("C15/%s/dests=%d/replicas=%d%s" % (kind, nd, r, "/hosts=" + hosts if hosts else ""), harness, p, tier=tier)
+    if insts:
+        p["insts"] = insts
+    return spec("C15/%s/dests=%d/replicas=%d%s%s" % (kind, nd, r, "/hosts=" + hosts if hosts else "", "/insts=" + insts if insts else ""), harness, p, tier=tier)
 
 PROPS["C15"] = {
     "bounds": ("ring position: keys of 0..4 symbolic bytes, arbitrary digest; replica key text: host 1..2 (thorough 1..3) and instance 0..2 symbolic bytes out of [.0-9a-z], with and without port, 1..2 (thorough 1..3) replicas, "
@@ -32,14 +34,14 @@ PROPS["C15"] = {
             spec("C15/route/key=servers.web01.cpu.user", "VerifC15Route", {"key": "servers.web01.cpu.user"}),
         ]},
         {"pkg": "route", "hdir": "route", "specs": [
-            _c15_world("order", "VerifC15OrderIndependent", 2, 1),
-            _c15_world("order", "VerifC15OrderIndependent", 2, 1, "aa"),
             _c15_world("order", "VerifC15OrderIndependent", 2, 2),
-            _c15_world("disruption", "VerifC15Disruption", 1, 1),
-            _c15_world("disruption", "VerifC15Disruption", 1, 1, "aa"),
-            _c15_world("order", "VerifC15OrderIndependent", 3, 2, tier="thorough"),
+            _c15_world("order", "VerifC15OrderIndependent", 3, 2, tier="thorough", insts="000"),
         ]},
         {"pkg": "route", "hdir": "route", "specs": [
+            _c15_world("order", "VerifC15OrderIndependent", 2, 1),
+            _c15_world("order", "VerifC15OrderIndependent", 2, 1, "aa"),
+            _c15_world("disruption", "VerifC15Disruption", 1, 1),
+            _c15_world("disruption", "VerifC15Disruption", 1, 1, "aa"),
             _c15_world("order", "VerifC15OrderIndependent", 3, 1),
             _c15_world("disruption", "VerifC15Disruption", 2, 1),
             _c15_world("disruption", "VerifC15Disruption", 2, 1, "aab"),
@@ -49,9 +51,11 @@ PROPS["C15"] = {
         ]},
         {"pkg": "route", "hdir": "route", "specs": [
             _c15_world("disruption", "VerifC15Disruption", 1, 2),
-            _c15_world("order", "VerifC15OrderIndependent", 2, 2, "aa"),
             _c15_world("disruption", "VerifC15Disruption", 1, 2, "aa", tier="thorough"),
-            _c15_world("disruption", "VerifC15Disruption", 2, 2, tier="thorough"),
+        ]},
+        {"pkg": "route", "hdir": "route", "specs": [
+            _c15_world("order", "VerifC15OrderIndependent", 2, 2, "aa"),
+            _c15_world("disruption", "VerifC15Disruption", 2, 2, tier="thorough", insts="000"),
         ]},
         {"pkg": "destination", "hdir": "destination", "specs": [spec("C15/addr-split", "VerifC15AddrSplit")]},
     ],
